@@ -2017,7 +2017,14 @@ impl<'a> Searcher<'a> {
                 expr.right.as_ref().unwrap(),
             );
 
-            result = match field_value.get_type() {
+            // the pattern operators work on the text of any value (`size like '1%'`); every other
+            // operator goes by the type of the value
+            let value_type = match op {
+                Op::Rx | Op::NotRx | Op::Like | Op::NotLike => &VariantType::String,
+                _ => field_value.get_type(),
+            };
+
+            result = match value_type {
                 VariantType::String => {
                     let val = value.to_string();
                     match op {
@@ -2151,6 +2158,11 @@ impl<'a> Searcher<'a> {
                         }
                         Op::Eeq => val.eq(&field_value.to_string()),
                         Op::Ene => val.ne(&field_value.to_string()),
+                        // texts are ordered as ORDER BY orders them
+                        Op::Gt => field_value.to_string() > val,
+                        Op::Gte => field_value.to_string() >= val,
+                        Op::Lt => field_value.to_string() < val,
+                        Op::Lte => field_value.to_string() <= val,
                         _ => false,
                     }
                 }
